@@ -93,7 +93,7 @@ META.update({
   category="proof",
   text="Proof (Verus, unbounded n): the default chunked copy_to/copy_from (generic reader and writer, default and checks configurations) and the optimised BufBitReader::copy_to (u8..u64 words, every Inv_R state including more than one word buffered) and BufBitWriter::copy_from (u8..u128 words) append exactly the reader's next n bits, advance the reader by n, re-establish the representation invariants (so every continuation behaves as after bit-by-bit transfer, by C01/C02) and issue only calls within the trait preconditions. "
        "Kani obligations from arbitrary invariant states (window-bounded) with continuation harnesses provide counterexamples and the observational check.",
-  note="Optimised-path units: word instantiation, read_bits/write_bits of the same object taken by contract (discharged by Kani c02.read_bits / c01.write_bits), rotate/cast/min by axioms discharged by Kani std_spec obligations; default configuration for the optimised paths (checks configuration by Kani). Rewrites: map_err(..)? desugaring (R6), min -> if/else, let-introduction.",
+  note="Optimised-path units: word instantiation, read_bits/write_bits of the same object taken by contract (discharged by Kani c02.read_bits / c01.write_bits), rotate/cast/min by axioms discharged by Kani std_spec obligations; default and checks configurations. Rewrites: map_err(..)? desugaring (R6), min -> if/else, let-introduction.",
   design="4/C08"),
 })
 
